@@ -14,7 +14,7 @@ PROPS = {
                 invariants=["CausalDelivery", "WithinCapacity"],
                 # capacities that make the ring buffer wrap at other places (even but not a power of two, odd)
                 extra_caps=dict(laps=dict(quick=[6], thorough=[5, 6, 10]))),
-    "C03": dict(benches=["chain", "fanout", "volume", "query", "hier3", "sources"], caps=dict(quick=[1, 2], thorough=[1, 2, 3, 16]),
+    "C03": dict(benches=["chain", "fanout", "arity_a", "arity_b", "arity_q", "volume", "query", "hier3", "sources"], caps=dict(quick=[1, 2], thorough=[1, 2, 3, 16]),
                 invariants=["ExactlyOnce", "NothingInvented", "WithinCapacity"]),
     "C04": dict(benches=["chain", "triangle", "volume", "query", "saturate", "hier3"],
                 caps=dict(quick=[1, 2], thorough=[1, 2, 3]), invariants=["QuiescentMeansDone", "ExactlyOnce"],
